@@ -1,9 +1,11 @@
 (** C10: documented .peg syntax means what the docs say; malformed text is rejected.
-    Coq decides: the stack discipline of the tree builder for every well-formed surface expression, and
-    the escape table.  That the real front end (a generated parser + these builder calls) maps every
-    spelling of a construct to the tree [elab] computes, and rejects malformed text, is decided by the
-    correspondence run (spelling variants, malformed-by-construction texts). *)
-From PegV Require Import Base.Tac Spec.Syntax Model.Front Proofs.FrontProofs.
+    Coq decides: the stack discipline of the tree builder for every well-formed surface expression, the
+    escape table, and - for every expression as written, with any layout and any spelling of its characters -
+    that the front end's own grammar (Generated/PegPeg.v, regenerated from peg.peg on every run) reads the
+    text back and makes exactly the builder calls that build the tree the expression denotes.  The file level
+    (package, imports, rule list) and the rejection of malformed text are decided by the correspondence run. *)
+From PegV Require Import Base.Tac Spec.Syntax Spec.Peg Proofs.PegRel Model.Calls Model.Front Proofs.FrontProofs
+  Generated.PegPeg Reader.Base Reader.Lex Reader.Chars Reader.Lits Reader.Expr Reader.Bridge Reader.Top.
 Open Scope Z_scope.
 
 (** For every surface expression without empty literals / classes / lists, the builder calls peg.peg's
@@ -29,9 +31,66 @@ Proof.
 Qed.
 Print Assumptions C10_octal_escapes.
 
+(** The reader, expression level.  [e] is an expression as written: every token with the blanks, line ends and
+    comments behind it, characters raw or as one of the documented escapes (either letter case), \0x hex or
+    octal; [wf e] says that the precedence levels nest (alternation < sequence < prefix < suffix < primary),
+    that braces in action text balance and that each spelling is one the scanner reads back as written (a digit
+    run is not followed by another digit, a name is not glued to the next one ...).  Then peg.peg's own rule
+    tree, under the reference semantics, accepts exactly the text [show e] from the rule Expression, the calls
+    its actions make while Execute() walks the derivation are [xcalls e], and the tree builder, given those
+    calls, leaves the single node [elab (erase e)] - the tree Model/Front.v says the construct denotes:
+    'x' case-sensitive, "x" and [[x]] both cases, [^...] as !class followed by dot, escapes by their code point,
+    both arrow and comment spellings irrelevant (they are layout), nesting by precedence. *)
+Theorem C10_reader_expression :
+  forall (nm ak : list rune -> nat) penv e, wf e ->
+  exists n f evs tree,
+    peg_ev pegpeg_d pegpeg_d_ptx (show e) penv n (EName pr_Expression) 0 = Some (Succ (length (show e)) f, evs) /\
+    calls_of_forest (show e) f = xcalls e /\
+    build nm ak (xcalls e) [] = Some [tree] /\ elab (erase nm ak e) = Some tree.
+Proof. exact reader_expression. Qed.
+Print Assumptions C10_reader_expression.
+
+(** ... and inside any text: wherever [show e] stands in the input, followed by something that cannot continue
+    it (no suffix operator, no slash, nothing that starts a Prefix, no arrow, no letter glued to a final name) *)
+Theorem C10_reader_expression_in_context :
+  forall (nm ak : list rune -> nat) penv buf e rest p,
+  wf e -> At buf p (show e ++ rest) -> fol buf penv (p + length (show e))%nat rest ->
+  (glue e = true -> not_icont_head rest) ->
+  ko pegpeg_d pegpeg_d_ptx buf penv (EName pr_Prefix) (p + length (show e))%nat ->
+  ko pegpeg_d pegpeg_d_ptx buf penv (EName pr_Slash) (p + length (show e))%nat -> head_ne 47 rest ->
+  exists n f evs tree,
+    peg_ev pegpeg_d pegpeg_d_ptx buf penv n (EName pr_Expression) p = Some (Succ (p + length (show e))%nat f, evs) /\
+    calls_of_forest buf f = xcalls e /\
+    (forall stk, build nm ak (xcalls e) stk = Some (tree :: stk)) /\ elab (erase nm ak e) = Some tree.
+Proof. exact reader_expression_in_context. Qed.
+Print Assumptions C10_reader_expression_in_context.
+
+(** the lexical layer on its own: any layout is skipped; every spelling of a character is read as its call *)
+Theorem C10_reader_spacing :
+  forall buf penv s rest p t, lay s -> stop rest -> At buf p (s ++ rest) ->
+  C buf penv (EName pr_Spacing) p (p + length s)%nat [] t t.
+Proof. exact spacing_ok. Qed.
+Print Assumptions C10_reader_spacing.
+Theorem C10_reader_char :
+  forall buf penv k rest p t, kvalid k = true -> kfollow k rest = true -> At buf p (kshow k ++ rest) ->
+  exists t', C buf penv (EName pr_Char) p (p + length (kshow k))%nat [kcall false k] t t'.
+Proof. exact char_ok. Qed.
+Print Assumptions C10_reader_char.
+
+(** non-vacuity of the reader theorems:  a 'x\n\0x41'* ![a-z\12] <. {x{}}> &{t} () #c (newline) "A" / (newline)
+    is well formed *)
+Example C10_reader_nonvacuous :
+  wf sample /\ length (show sample) = 53%nat /\
+  (* ... and the executable semantics, run on that text, computes what the theorem says *)
+  match peg_ev pegpeg_d pegpeg_d_ptx (show sample) (fun _ _ => false) 300 (EName pr_Expression) 0 with
+  | Some (Succ p f, _) => Some (p, calls_of_forest (show sample) f)
+  | _ => None
+  end = Some (53%nat, xcalls sample).
+Proof. split; [exact sample_wf|split; vm_compute; reflexivity]. Qed.
+
 (** non-vacuity: ("ab" / [^x-z\0x41]) 'c'   flattens into the enclosing sequence only where addList does *)
 Example C10_nonvacuous :
-  elab (XSeq [XGroup (XAlt [XILit [SC 97; SC 98]; XClass true false [CRange (SC 120) (SC 122); CChar (SHex [4; 1])]] false); XLit [SC 99]])
+  elab (Front.XSeq [Front.XGroup (Front.XAlt [Front.XILit [SC 97; SC 98]; Front.XClass true false [CRange (SC 120) (SC 122); CChar (SHex [4; 1])]] false); Front.XLit [SC 99]])
   = Some (ESeq [EAlt [ESeq [EAlt [EChar 97; EChar 65]; EAlt [EChar 98; EChar 66]];
                       ESeq [ENot (EAlt [ERange 120 122; EChar 65]); EDot]]; EChar 99]) /\
   length octal_spellings = 328%nat /\ add_octal [3; 7; 7] = 255.
